@@ -81,6 +81,24 @@ Section Run.
         else if is (U"sign_all_value") then sign_all_value ed_pub ed_sign a b
         else if is (U"pub_of_seed") then match a with VBytes sd => Ok (VBytes (ed_pub sd)) | _ => Unmodelled end
         else Unmodelled
+    | [a; VList seeds1; c; VList seeds2] =>
+        (* wrap, sign by seeds1, replace the payload (an edit after signing), sign by seeds2 *)
+        if is (U"sign_edit_sign") then
+          let go := (fix go (l : list pv) (e : pv) : res pv :=
+                       match l with
+                       | [] => Ok e
+                       | VBytes sd :: r => e' <- sign_signable ed_pub ed_sign e (VPriv sd) ;; go r e'
+                       | _ => Unmodelled
+                       end) in
+          e0 <- wrap_as_signable a ;;
+          e1 <- go seeds1 e0 ;;
+          match e1 with
+          | VDict m => go seeds2 (VDict (dset m (U"signed") c))
+          | _ => Unmodelled
+          end
+        else if is (U"verify_signable") then unit_res (verify_signable ed_verify sha a (VList seeds1) c (VList seeds2))
+        else if is (U"verify_delegation") then unit_res (verify_delegation ed_verify sha a (VList seeds1) c (VList seeds2))
+        else Unmodelled
     | [a; b; c] =>
         if is (U"verify_signature") then unit_res (verify_signature ed_verify a b c)
         else if is (U"verify_gpg_signature") then unit_res (verify_gpg_signature ed_verify sha a b c)
